@@ -19,7 +19,7 @@ FUNCTIONS = ["OrderedRingBuffer.update", "normalize_timestamp", "to_internal_ind
 SHIMS = ["buffer.round / buffer.int map proxy reals to proxy ints (round-half-even / truncation)", "list indexing/slicing with a proxy int realises the index by forking",
          "math.isnan dispatch on proxies"]
 ASSUMPTIONS = [
-    "list container, sampling period 1 s, align_to = UNIX epoch; update timestamps are symbolic microseconds anywhere in [0, span] (on and off the slot grid, any order); "
+    "list container, sampling period 1 s (and 200 ms / 300 ms / 70 ms instances), align_to = UNIX epoch; update timestamps are symbolic microseconds anywhere in [0, span] (on and off the slot grid, any order); "
     "each update is valid or missing by a symbolic flag; values are distinct concrete floats (the property is about WHICH slot a value lands in)",
     "reference: executable map slot -> value with slot = round_half_even(t / period), window = [newest - capacity + 1, newest]",
     "datetime queries: start/end symbolic microseconds (unaligned, inverted, outside the window, closer than one period); index queries: each index None or in [-3, 3]",
@@ -27,7 +27,7 @@ ASSUMPTIONS = [
 BOUNDS = {"quick": "capacity 1 and 2 with 2 updates: consistency after every update, + one datetime query, + one index query, + MovingWindow.at (all exhaustive; timestamps anywhere in a 3-5 s span at us resolution); "
                    "deeper histories with update timestamps enumerated on the slot grid: capacity 4 with 4 updates (state), capacity 3 with 3 updates + symbolic datetime query",
           "thorough": "capacity 3 with 3 updates: consistency (exhaustive), + queries (budgeted); capacity 3 with 4 updates (budgeted); capacity 1 with 3 updates"}
-OUTSIDE = "numpy container (shares every line except _wrapped_buffer_window/_fill_gaps branches); serialization; MovingWindow's resampler wiring; other sampling periods"
+OUTSIDE = "numpy container (shares every line except _wrapped_buffer_window/_fill_gaps branches); serialization; MovingWindow's resampler wiring; sampling periods other than 1 s, 200 ms, 300 ms, 70 ms; alignment points other than the epoch"
 BUDGET = {"quick": 900, "thorough": 2400}
 PERIOD = timedelta(seconds=1)
 PUS = 1_000_000
@@ -41,6 +41,12 @@ def install():
         rb.round = core.sym_round
         rb.int = core.sym_int
         _inst = True
+
+
+def set_period(period_us):
+    global PERIOD, PUS
+    PUS = period_us
+    PERIOD = timedelta(microseconds=period_us)
 
 
 def slot_of(us):
@@ -120,9 +126,11 @@ def same(got, exp):
     return len(got) == len(exp) and all((a == b) or (isinstance(a, float) and isinstance(b, float) and math.isnan(a) and math.isnan(b)) for a, b in zip(got, exp))
 
 
-def make(cap, k, span, mode, reach=False, grid=False):
-    """mode: 'state' (consistency after every update), 'dtq' (+ one datetime window query), 'idxq' (+ one index window query)"""
+def make(cap, k, span, mode, reach=False, grid=False, period_us=1_000_000):
+    """mode: 'state' (consistency after every update), 'dtq' (+ one datetime window query), 'idxq' (+ one index window query);
+    span is in sampling periods."""
     def fn(ex):
+        set_period(period_us)
         buf, model, newest = apply_updates(ex, cap, k, span, check_each=(mode == "state"), grid=grid)
         if newest is None:
             return
@@ -172,11 +180,12 @@ def make(cap, k, span, mode, reach=False, grid=False):
     return fn
 
 
-def make_at(cap, k, span, reach=False):
+def make_at(cap, k, span, reach=False, period_us=1_000_000):
     """MovingWindow.at / __getitem__ with an index or a datetime key, on top of the same symbolic update history."""
     from frequenz.sdk.timeseries._moving_window import MovingWindow
 
     def fn(ex):
+        set_period(period_us)
         buf, model, newest = apply_updates(ex, cap, k, span, check_each=False)
         if newest is None:
             return
@@ -236,6 +245,10 @@ def instances(tier):
         I("cap2-k2-at", "make_at", (2, 2, 4), "MovingWindow.at / [] with index or datetime key, capacity 2, 2 updates", budget_s=300, **kw),
         I("grid-cap4-k4-state", "make", (4, 4, 6, "state", False, True), "capacity 4, 4 updates on the slot grid (7 slots): state after every update", budget_s=300, **kw),
         I("grid-cap3-k3-dtq", "make", (3, 3, 4, "dtq", False, True), "capacity 3, 3 updates on the slot grid (5 slots) + symbolic datetime query", budget_s=300, **kw),
+        I("grid-cap3-k3-state-200ms", "make", (3, 3, 5, "state", False, True, 200_000),
+          "sampling period 200 ms (not representable in binary; concrete grid timestamps run the code's float arithmetic in IEEE), capacity 3, 3 updates", budget_s=200, **kw),
+        I("cap2-k2-state-300ms", "make", (2, 2, 4, "state", False, False, 300_000), "sampling period 300 ms, capacity 2, 2 symbolic updates", budget_s=200, **kw),
+        I("grid-cap2-k2-idxq-300ms", "make", (2, 2, 4, "idxq", False, True, 300_000), "sampling period 300 ms, grid updates + index query", budget_s=200, **kw),
     ]
     if tier != "quick":
         out += [
@@ -247,5 +260,8 @@ def instances(tier):
             I("cap3-k3-dtq", "make", (3, 3, 5, "dtq"), "capacity 3, 3 updates + datetime query (budgeted)", budget_s=900, exhaustive=False, validate_every=5000),
             I("cap3-k3-idxq", "make", (3, 3, 5, "idxq"), "capacity 3, 3 updates + index query (budgeted)", budget_s=900, exhaustive=False, validate_every=5000),
             I("cap3-k4-state", "make", (3, 4, 6, "state"), "capacity 3, 4 updates (budgeted)", budget_s=900, exhaustive=False, validate_every=5000),
+            I("grid-cap4-k4-state-200ms", "make", (4, 4, 6, "state", False, True, 200_000), "sampling period 200 ms, capacity 4, 4 grid updates", budget_s=600, **kw),
+            I("grid-cap3-k3-dtq-300ms", "make", (3, 3, 4, "dtq", False, True, 300_000), "sampling period 300 ms, capacity 3, 3 grid updates + symbolic datetime query", budget_s=600, **kw),
+            I("cap3-k3-at-70ms", "make_at", (3, 3, 4, False, 70_000), "sampling period 70 ms, MovingWindow.at", budget_s=600, exhaustive=False, **kw),
         ]
     return out
